@@ -201,6 +201,14 @@ func (x *Exec) enabled() []*thread {
 	return en
 }
 
+// CurrentThread names the thread that is running ("" in setup/teardown).
+func (x *Exec) CurrentThread() string {
+	if x.cur == nil {
+		return ""
+	}
+	return x.cur.name
+}
+
 // ThreadPositions returns "id:npoints:done" for every thread (state keys).
 func (x *Exec) ThreadPositions() string {
 	var b strings.Builder
